@@ -16,7 +16,6 @@ while read -r c p; do echo "revert $c $p --revert" >> "$list"; done <<'REV'
 b2d3985 C02
 d9318e4 C02
 0de754f C02
-c883f47 C02
 64fbe48 C02
 6769d8a C08
 59cf698 C08
@@ -32,10 +31,13 @@ f1f4efe C15
 20a2502 C18
 a4a3235 C18
 7409b1d C18
+3aa1f91 C18
 25f9667 C19
 06b0dfc C19
+4055d97 C19
 649779a C13
 459ad16 C13
+0808f79 C13
 1b8802c C05
 REV
 grep -E "$FILTER" "$list" > "$list.f"
